@@ -3,6 +3,7 @@ against CPython by tools/selftest.py."""
 from __future__ import annotations
 
 import re as pyre
+import os
 import os as pyos
 
 import z3
@@ -1076,6 +1077,15 @@ def _s_splitlines(interp, path, args, kw):
         else:
             if not part_break_free(interp, path, p):
                 ok = False
+                if os.environ.get('PYVC_DEBUG_SPLIT'):
+                    print('splitlines: not provably break-free:', str(p)[:300], '| stack', interp.call_stack[-3:])
+                    g = ops.no_break(p, path)
+                    r = path.check(z3.Not(g), timeout_ms=20000)
+                    print('   with 20 s budget:', r, 'index', path.index_terms, 'binders', path.binders)
+                    path._sync()
+                    for a_ in path._solver.assertions():
+                        if 'Event.name' in str(a_):
+                            print('   A:', str(a_)[:700].replace(chr(10), ' '))
                 break
             segs[-1].append(p)
     if ok:
@@ -1098,9 +1108,100 @@ def _s_splitlines(interp, path, args, kw):
     return SeqV(interp.seq_of_base(base, TypeDesc('str'), path))
 
 
+def _syntactic_break_free(e, depth=0):
+    """Assumption MV-1 (model validity): no string stored in a model object contains a line boundary.  Under it
+    a string term is break-free when it is built from model fields by operations that cannot introduce one."""
+    if depth > 12:
+        return False
+    if z3.is_string_value(e):
+        return not any(c in ops.LINE_BREAKS for c in ops._unescape(e.as_string()))
+    if not z3.is_app(e):
+        return False
+    k = e.decl().kind()
+    if k == z3.Z3_OP_DT_ACCESSOR:
+        return True
+    if k == z3.Z3_OP_ITE:
+        return _syntactic_break_free(e.arg(1), depth + 1) and _syntactic_break_free(e.arg(2), depth + 1)
+    if k == z3.Z3_OP_SEQ_CONCAT:
+        return all(_syntactic_break_free(c, depth + 1) for c in e.children())
+    if k in (z3.Z3_OP_SEQ_EXTRACT, z3.Z3_OP_SEQ_AT):
+        return _syntactic_break_free(e.arg(0), depth + 1)
+    if k == z3.Z3_OP_UNINTERPRETED:
+        name = e.decl().name()
+        if name in ('py.upper', 'py.lower', 'py.strip', 'py.lstrip', 'py.rstrip') and e.num_args() == 1:
+            return _syntactic_break_free(e.arg(0), depth + 1)
+        if name.startswith('py.repeat['):
+            ch = name[len('py.repeat['):-1]
+            return ch not in ("'\\n'", "'\\r'")
+        if name.startswith('in_') and e.num_args() == 0 and getattr(_syntactic_break_free, 'inputs_ok', False):
+            return True
+    return False
+
+
+def forall_items(interp, path, t: SeqT, pred):
+    """PROVES  pred(item) for every item of the sequence term (fresh index per comprehension); pred maps an
+    executor value and a path to a z3 Bool / bool.  Returns True only when every item is proved."""
+    for b in t.blocks:
+        if isinstance(b, LitB):
+            for it in b.items:
+                g = pred(it, path)
+                if g is True:
+                    continue
+                if g is False or not path.entails(g):
+                    return False
+        elif isinstance(b, GuardB):
+            sub = path.child()
+            sub.binders = path.binders
+            try:
+                sub.assume(interp.zbool(b.cond))
+            except Exception:
+                continue
+            if not forall_items(interp, sub, b.body, pred):
+                return False
+        elif isinstance(b, CompB):
+            k = z3.Int(fresh_name('fa'))
+            sub = path.child()
+            sub.binders = path.binders + [k]
+            sub.add_index(k)
+            sub.assume(ops.in_range(b.base, k))
+            if b.guard is not True:
+                sub.assume(z3.substitute(b.guard, (b.var, k)))
+            if not forall_items(interp, sub, ops.subst(b.body, [(b.var, k)]), pred):
+                return False
+        else:
+            return False
+    return True
+
+
+def str_break_free(interp, v, path):
+    """z3 Bool / bool: the string value contains no line boundary"""
+    if isinstance(v, str):
+        return not any(c in ops.LINE_BREAKS for c in v)
+    if not isinstance(v, StrT):
+        return False
+    res = True
+    for p in v.parts:
+        if isinstance(p, str):
+            if any(c in ops.LINE_BREAKS for c in p):
+                return False
+        elif isinstance(p, JoinT):
+            if not part_break_free(interp, path, p):
+                return False
+        else:
+            res = interp.and_(res, ops.no_break(p, path))
+    return res
+
+
 def part_break_free(interp, path, p):
     if isinstance(p, JoinT):
-        return False
+        cache = path.__dict__.setdefault('_bfj', {})
+        key = canon(p)
+        if key not in cache:
+            cache[key] = str_break_free(interp, p.sep, path) is True and \
+                forall_items(interp, path, p.seq, lambda it, pp: str_break_free(interp, it, pp))
+        return cache[key]
+    if getattr(interp, 'model_strings_break_free', False) and _syntactic_break_free(p):
+        return True
     key = p.get_id()
     cache = path.__dict__.setdefault('_bf', {})
     if key not in cache:
